@@ -188,6 +188,53 @@ FormatterToText::endElement(
 
 
 
+static void
+checkRepresentable(
+            const XalanOutputStream*    theStream,
+            const XalanDOMString&       theEncoding,
+            const XalanDOMChar*         chars,
+            FormatterListener::size_type    i,
+            FormatterListener::size_type    length,
+            MemoryManager&              theManager)
+{
+    if (theStream != 0)
+    {
+        XalanUnicodeChar    theChar = chars[i];
+
+        if (0xDC00u <= theChar && theChar <= 0xDFFFu)
+        {
+            // The second half of a surrogate pair was checked
+            // with the first; an unpaired one is left to the
+            // transcoder.
+            return;
+        }
+        else if (0xD800u <= theChar && theChar <= 0xDBFFu)
+        {
+            if (i + 1 < length &&
+                0xDC00u <= chars[i + 1] && chars[i + 1] <= 0xDFFFu)
+            {
+                theChar = ((theChar - 0xD800u) << 10) + (chars[i + 1] - 0xDC00u) + 0x10000u;
+            }
+            else
+            {
+                return;
+            }
+        }
+
+        if (theStream->canTranscodeTo(theChar) == false)
+        {
+            XalanDOMString  theBuffer(theManager);
+
+            throw XalanTranscodingServices::UnrepresentableCharacterException(
+                        theChar,
+                        theEncoding,
+                        theBuffer);
+        }
+    }
+}
+
+
+
 void
 FormatterToText::characters(
             const XMLCh* const  chars,
@@ -207,7 +254,19 @@ FormatterToText::characters(
         {
             if (chars[i] > m_maxCharacter)
             {
-                //$$$ ToDo: Figure out what we're going to do here...
+                // Above the range every character of which the
+                // encoding is known to have: ask the transcoder, and
+                // report a character it cannot represent, as the XML
+                // serializer does where it cannot write a character
+                // reference.  (The transcoder would silently write a
+                // substitution character.)
+                checkRepresentable(
+                    m_writer->getStream(),
+                    m_encoding,
+                    chars,
+                    i,
+                    length,
+                    getMemoryManager());
             }
 
 #if defined(XALAN_NEWLINE_IS_CRLF)
